@@ -219,9 +219,10 @@ fn transform_submodule(
         // (c) Subtype is generic with a concretisation here
 
         // Get base-node for the generic type.
-        let (mut node, req_args) = nodes.get(&typ.ident)
-            .expect("unreachable: parse order should guarantee, that all required modules are already parsed")
-            .clone();
+        // A generic placeholder cannot itself take type arguments.
+        let Some((mut node, req_args)) = nodes.get(&typ.ident).cloned() else {
+            return Err(ErrorKind::InvalidTypStatement(typ.clone(), Vec::new()).into());
+        };
 
         // Check that the assigment matches all required generics
         if req_args.len() != typ.args.len() {
@@ -236,9 +237,17 @@ fn transform_submodule(
             let concrete_replacement_name = &typ.args[i];
 
             // Get the concrete type, used as a replacement
-            let (concrete_replacement, replacement_deps) = nodes.get(concrete_replacement_name)
-                .expect("unreachable: parse order should guarantee, that all required modules are already parsed");
-            assert!(replacement_deps.is_empty());
+            // Type arguments must be concrete, non-generic types.
+            let Some((concrete_replacement, replacement_deps)) =
+                nodes.get(concrete_replacement_name)
+            else {
+                return Err(ErrorKind::InvalidTypStatement(typ.clone(), req_args).into());
+            };
+            if !replacement_deps.is_empty() {
+                return Err(
+                    ErrorKind::InvalidTypStatement(typ.clone(), replacement_deps.clone()).into(),
+                );
+            }
 
             // Ensure that the replacement conforms to all required parameters
             let interface = nodes.get(&generic_binding.bound).expect("unreachable: parse order should guarantee, that all required modules are already parsed");
